@@ -1,6 +1,7 @@
 /- Atto/Driver/Ops.lean — op dispatch. -/
 import Atto.Driver.Codec
 import Atto.Driver.SendOp
+import Atto.Driver.ProxyOp
 namespace Atto.Driver
 open Atto
 
@@ -37,6 +38,8 @@ def runLine (line : String) : String :=
   match line.trimAscii.toString.splitOn " " with
   | "resp" :: args => opResp args
   | "send" :: args => opSend args
+  | "pfor" :: args => opPfor args
+  | "penv" :: args => opPenv args
   | _ => "bad-op"
 
 end Atto.Driver
